@@ -27,13 +27,19 @@ int vprop_fork = 1;
 int vprop_cpu_limit_s = 60;
 const char *vprop_class_names[V_NCLASS] = {
   "mode_jit", "mode_backup", "mode_emulate", "mode_disable_orc", "lazy_init", "init_function", "compat_bytecode", "compat_old", "no_backup",
-  "inline", "multi_function", "two_d", "accumulators", "typed_params", "float_ops", "memcpy_memset", "difference_within_float_freedom", "refused_by_compat_level", NULL
+  "inline", "multi_function", "two_d", "accumulators", "typed_params", "float_ops", "memcpy_memset", "difference_within_float_freedom", "refused_by_compat_level", "first_use_without_orc_init", NULL
 };
 
 void vprop_init (int argc, char **argv) { (void) argc; (void) argv; /* orc_init happens in the child: ORC_CODE is read there */ }
 /* enumerated: mode (3) x destination misalignment (16) */
-uint64_t vprop_enum_count (const char *tier) { (void) tier; return 3 * 16; }
-size_t vprop_enum_stream (uint64_t i, uint32_t *out, size_t max) { (void) max; out[0] = 0xC7C7C7C7u; out[1] = (uint32_t) (i / 16); out[2] = (uint32_t) (i % 16); return 3; }
+/* enumerated: orc_memcpy/orc_memset: mode (3) x destination misalignment (16); then "first use": 3 modes x {lazy, --init-function} */
+uint64_t vprop_enum_count (const char *tier) { (void) tier; return 3 * 16 + 6; }
+size_t vprop_enum_stream (uint64_t i, uint32_t *out, size_t max)
+{
+  (void) max;
+  if (i >= 48) { out[0] = 0xC7C7C7C8u; out[1] = (uint32_t) ((i - 48) / 2); out[2] = (uint32_t) ((i - 48) % 2); return 3; }
+  out[0] = 0xC7C7C7C7u; out[1] = (uint32_t) (i / 16); out[2] = (uint32_t) (i % 16); return 3;
+}
 
 static const char *cg_varnames[48] = {
   "d1", "d2", "d3", "d4", "s1", "s2", "s3", "s4", "s5", "s6", "s7", "s8", "a1", "a2", "a3", "d4",
@@ -104,6 +110,86 @@ static void memfuncs (VResult *r, int mode, int dalign)
   r->nontrivial = 1;
   r->sub_nontrivial = r->sub_evals;
   r->hash = 0xC7000000u + (uint64_t) mode * 16 + (uint64_t) dalign;
+}
+
+/* ---- first use: the generated function is the FIRST thing the process asks of Orc (no orc_init call by the application) ---- */
+#include <sys/resource.h>
+#include <signal.h>
+static void first_use (VResult *r, int mode, int eager)
+{
+  static const char *modes[3] = { NULL, "backup", "emulate" };
+  const char *scratch = v_arg ("scratch", "/verif/_work/scratch"), *orcc = v_arg ("orcc", NULL), *inc = v_arg ("cg_inc", "");
+  char dir[400], cmd[2400], err[1200], path[500];
+  pid_t pid;
+  int st = 0, waited = 0;
+  v_desc (r, "# C07 first use: a generated function (%s) is the first Orc call of the process, ORC_CODE=%s\n", eager ? "--init-function, init function called first" : "lazy init",
+      modes[mode] ? modes[mode] : "(unset)");
+  if (!orcc) { r->verdict = V_DISCARD; return; }
+  snprintf (dir, sizeof dir, "%s/c07f-%d", scratch, (int) getpid ());
+  snprintf (cmd, sizeof cmd, "rm -rf %s && mkdir -p %s", dir, dir);
+  if (system (cmd) != 0) { r->verdict = V_DISCARD; return; }
+  snprintf (path, sizeof path, "%s/fu.orc", dir);
+  { FILE *f = fopen (path, "w"); if (!f) { r->verdict = V_DISCARD; return; } fputs (".function fu_add\n.dest 2 d1\n.source 2 s1\n.source 2 s2\naddw d1, s1, s2\n", f); fclose (f); }
+  snprintf (cmd, sizeof cmd, "%s --implementation %s -o %s/impl.c %s/fu.orc > %s/e 2>&1 && %s --header %s -o %s/fu.h %s/fu.orc >> %s/e 2>&1", orcc, eager ? "--init-function fu_init" : "--lazy-init",
+      dir, dir, dir, orcc, eager ? "--init-function fu_init" : "--lazy-init", dir, dir, dir);
+  snprintf (path, sizeof path, "%s/e", dir);
+  if (run_cmd (cmd, err, sizeof err, path) != 0) { v_fail (r, "orcc:failed", "orcc failed on a trivial file: %.300s", err); return; }
+  snprintf (path, sizeof path, "%s/main.c", dir);
+  {
+    FILE *f = fopen (path, "w");
+    if (!f) { r->verdict = V_DISCARD; return; }
+    fprintf (f, "#include <orc/orc.h>\n#include \"fu.h\"\nint fu_main (void) { short d[40], a[40], b[40]; int i; for (i = 0; i < 40; i++) { a[i] = (short) (i * 3); b[i] = (short) (100 - i); d[i] = 0; }\n"
+        "  %s fu_add (d, a, b, 37); for (i = 0; i < 37; i++) if (d[i] != (short) (a[i] + b[i])) return 2; for (; i < 40; i++) if (d[i]) return 3; return 0; }\n", eager ? "fu_init ();" : "");
+    fclose (f);
+  }
+  snprintf (cmd, sizeof cmd, "gcc -std=gnu11 -O2 -fPIC -shared -w -DORC_ENABLE_UNSTABLE_API %s -I%s -o %s/fu.so %s/impl.c %s/main.c > %s/e 2>&1", inc, dir, dir, dir, dir, dir);
+  snprintf (path, sizeof path, "%s/e", dir);
+  if (run_cmd (cmd, err, sizeof err, path) != 0) { v_fail (r, "cc:rejects-generated-code", "gcc rejects orcc output for a trivial file: %.300s", err); return; }
+  if (modes[mode]) setenv ("ORC_CODE", modes[mode], 1); else unsetenv ("ORC_CODE");
+  v_stage (r, "first use in a fresh process");
+  fflush (NULL);
+  pid = fork ();
+  if (pid == 0) {
+    void *h;
+    int (*fn) (void);
+    snprintf (path, sizeof path, "%s/fu.so", dir);
+    h = dlopen (path, RTLD_NOW | RTLD_LOCAL);
+    if (!h) _exit (40);
+    fn = (int (*) (void)) dlsym (h, "fu_main");
+    if (!fn) _exit (41);
+    _exit (fn ());
+  }
+  /* a deadlocked child burns no CPU: wait up to 60 s of wall time, but give up as soon as it has been idle for 8 s */
+  {
+    double idle = 0;
+    long last_ticks = -1;
+    while (waited < 6000) {
+      pid_t w = waitpid (pid, &st, WNOHANG);
+      char statp[64], buf[512];
+      FILE *f;
+      long ut = 0, stt = 0;
+      if (w == pid) break;
+      usleep (10000); waited++;
+      snprintf (statp, sizeof statp, "/proc/%d/stat", (int) pid);
+      f = fopen (statp, "r");
+      if (f) {
+        if (fgets (buf, sizeof buf, f)) { char *p = strrchr (buf, ')'); if (p) sscanf (p + 2, "%*c %*d %*d %*d %*d %*d %*u %*u %*u %*u %*u %ld %ld", &ut, &stt); }
+        fclose (f);
+      }
+      if (ut + stt == last_ticks) idle += 0.01; else idle = 0;
+      last_ticks = ut + stt;
+      if (idle >= 8.0) { kill (pid, SIGKILL); waitpid (pid, &st, 0); v_fail (r, "first-use:deadlock", "the first call of a generated function never returned and the process used no CPU time for 8 s (deadlock during implicit initialisation)"); goto done; }
+    }
+    if (waited >= 6000) { kill (pid, SIGKILL); waitpid (pid, &st, 0); r->verdict = V_DISCARD; goto done; }
+  }
+  if (WIFSIGNALED (st)) v_fail (r, "first-use:crash", "the first call of a generated function died with signal %d", WTERMSIG (st));
+  else if (WEXITSTATUS (st) != 0) v_fail (r, "first-use:wrong", "the first call of a generated function gave a wrong result (code %d)", WEXITSTATUS (st));
+done:
+  r->classes |= 1u << 18;
+  r->nontrivial = 1;
+  r->sub_evals = 1; r->sub_nontrivial = 1;
+  r->hash = 0xC8000000u + (uint64_t) mode * 2 + (uint64_t) eager;
+  if (!v_arg ("keep", NULL)) { snprintf (cmd, sizeof cmd, "rm -rf %s", dir); if (system (cmd)) {} }
 }
 
 /* ---- caller generation ---- */
@@ -184,6 +270,7 @@ void vprop_case (VChoices *c, VResult *r)
   void (*initfn) (void) = NULL;
   uint64_t h = 0;
 
+  if (c->n >= 3 && c->v[0] == 0xC7C7C7C8u) { first_use (r, (int) (c->v[1] % 3), (int) (c->v[2] % 2)); return; }
   if (c->n >= 3 && c->v[0] == 0xC7C7C7C7u) { memfuncs (r, (int) (c->v[1] % 3), (int) (c->v[2] % 16)); return; }
   if (!orcc) { r->verdict = V_DISCARD; return; }
   mode = (int) vc_pick (c, 4); lazy = (int) vc_pick (c, 2); compat = (int) vc_pick (c, 4); nobackup = vc_pick (c, 4) == 0; use_inline = vc_pick (c, 4) == 0;
